@@ -114,6 +114,20 @@ add(
     "3/C12",
 )
 
+add(
+    "C11",
+    "Real Parameter/Parameters code on symbolic values, bounds and optimiser iterates (exp/log uninterpreted with inverse, "
+    "monotonicity and tangent-line axioms): round trip optimiser-vector -> parameter is the identity (non-negative: to "
+    "the documented 1e-10 guard), x0 lies inside the transformed bounds, every iterate inside those bounds maps back "
+    "inside [minimum, maximum] (positive if non-negative); the vector holds exactly the vary/expression-free parameters in "
+    "declaration order for every flag arrangement enumerated; through the real Optimizer with the adversarial "
+    "least_squares: fixed parameters and expression definitions are kept and all free parameters stay in bounds in "
+    "every history record (read back with set_from_history) and in the result.",
+    COMMON_NOTE + "That scipy itself keeps iterates inside the bounds it is given is its contract (assumed: the stub "
+    "draws iterates only inside them). Label/Jacobian/covariance ordering is decided in C13.",
+    "3/C11",
+)
+
 ALL = [f"C{i:02d}" for i in range(1, 21)]
 
 
